@@ -119,7 +119,13 @@ func intFromConvertible(from px.Value, radix int) int64 {
 	case booleanValue:
 		return from.Int()
 	default:
-		i, err := strconv.ParseInt(from.String(), radix, 64)
+		s := from.String()
+		// strconv accepts a radix prefix for base 0 only: drop the prefix that agrees with the given radix
+		digits := strings.TrimLeft(s, `+-`)
+		if len(digits) > 2 && digits[0] == '0' && (radix == 16 && (digits[1]|0x20) == 'x' || radix == 2 && (digits[1]|0x20) == 'b') {
+			s = s[:len(s)-len(digits)] + digits[2:]
+		}
+		i, err := strconv.ParseInt(s, radix, 64)
 		if err == nil {
 			return i
 		}
